@@ -2,6 +2,7 @@ package checks
 
 import (
 	"fmt"
+	"github.com/nuetzliches/hookaido/internal/verifhook"
 	"github.com/nuetzliches/hookaido/verifharness/storecheck"
 	"sync"
 	"time"
@@ -11,6 +12,27 @@ import (
 )
 
 func leaseHistories(c *vlib.Ctx, prop string, mode leasecheck.Mode, n int, stale float64) {
+	// Widen the windows between the statements of a store transaction and its
+	// commit (every fifth commit waits 200us while holding the write lock, every
+	// seventh lease mutation waits before its commit): callers on the other
+	// handle and on other connections pile up exactly there.
+	verifhook.SetN("sqlite.commit.before", func(hit int64) {
+		if hit%5 == 0 {
+			time.Sleep(200 * time.Microsecond)
+		}
+	})
+	verifhook.SetN("sqlite.lease.after_mutate", func(hit int64) {
+		if hit%7 == 0 {
+			time.Sleep(100 * time.Microsecond)
+		}
+	})
+	defer func() {
+		verifhook.Set("sqlite.commit.before", nil)
+		verifhook.Set("sqlite.lease.after_mutate", nil)
+		hits := verifhook.Hits()
+		c.Set("hook_hits_sqlite_commit_before", hits["sqlite.commit.before"])
+		c.Set("hook_hits_sqlite_lease_after_mutate", hits["sqlite.lease.after_mutate"])
+	}()
 	// histories are independent worlds; run several at a time (16 cores)
 	jobs := make(chan int)
 	var wg sync.WaitGroup
@@ -28,7 +50,7 @@ func leaseHistories(c *vlib.Ctx, prop string, mode leasecheck.Mode, n int, stale
 				trs := [][]string{{"direct"}, {"direct", "http", "grpc"}, {"http", "grpc"}, {"http"}, {"grpc"}}[r.Intn(5)]
 				cfg := leasecheck.Cfg{
 					Backend: be, Store: sc, Messages: r.Range(4, 16), Clients: r.Range(8, 32), Phases: r.Range(20, 60),
-					StaleBias: stale, Transports: trs, Operator: r.Chance(0.6), Mode: mode, Prop: prop,
+					StaleBias: stale, Transports: trs, Operator: r.Chance(0.6), SecondHandle: be == "sqlite" && r.Chance(0.6), Mode: mode, Prop: prop,
 					Label: fmt.Sprintf("%s/%s/h%d", prop, be, i),
 				}
 				if mode == leasecheck.ModeExclusivity {
